@@ -510,6 +510,7 @@ impl<'a> Interp<'a> {
                     pre_queries: vec![],
                     reads: vec![],
                     queries: vec![],
+                    raw: Default::default(),
                 });
                 let reads = Self::do_reads(&ci.kv, &qnode.reads);
                 let nested: Vec<QSpec> = if depth >= 3 { vec![] } else { qnode.queries.clone() };
@@ -608,6 +609,7 @@ impl<'a> Interp<'a> {
             pre_queries: vec![],
             reads: vec![],
             queries: vec![],
+            raw: Default::default(),
         });
         let Some(node) = node else {
             // unknown node: the puppet returns an empty response
